@@ -1,8 +1,6 @@
 package props
 
 import (
-	"golang.org/x/tools/go/ssa"
-
 	"jrpcvet/internal/chk"
 	"jrpcvet/internal/ir"
 )
@@ -30,12 +28,7 @@ func ruleLifetimeWaited(c *chk.Ctx, gos []goClass, wgID string, minTracked int, 
 			continue
 		}
 		// every return of f is dominated by the Wait
-		all := true
-		ir.Instrs(f, func(ins ssa.Instruction) {
-			if r, ok := ins.(*ssa.Return); ok && !ir.InstrDominates(w, r) {
-				all = false
-			}
-		})
+		all := ir.AllReturnsDominatedBy(w)
 		if all {
 			found = true
 			c.Pass("GO.lifetime", f, who+" waits for lifetime group", w.Pos(), "every return of %s is dominated by %s.Wait()", ir.Name(f), wgID)
